@@ -160,6 +160,19 @@ def run(rep, tier, seed):
     h = core.run_bbh(lines)
     m = core.run_bbm(lines)
     diffs = core.diff_answers(cs, h, m)
+    # the wrappers again, consecutive questions about one program on ONE thread (history independence)
+    rngw = core.mkrng(seed, 'C05w')
+    wcs = []
+    for i, p in enumerate(gen.corpus_2x2()[::7] + gen.random_progs(rngw, 700 if tier == 'quick' else 7000)):
+        s_ = rngw.choice([2, 3, 4])
+        for g in rngw.sample(GOALS, 3):
+            wcs.append((f'w1t{i}{g}', f'segpy|{g}|{p}|{s_}'))
+    wl = [f'{i}|{l}' for i, l in wcs]
+    hw = core.run_bbh(wl, threads=1)
+    mw = core.run_bbm(wl)
+    diffs += core.diff_answers(wcs, hw, mw)
+    cs = cs + wcs
+    h.update(hw)
     fals, nsettled, nprogs, undecided = oracle(cs, h, 20000 if tier == 'quick' else 200000)
     fails = []
     nf2 = 0
